@@ -149,7 +149,7 @@ def check_dist(case, st):
             a |= int(bit) << idx[l]
         return a
 
-    dist, runs, leaves, cps = tapedfs.enumerate_all(fn, lambda i, log: menu, outcome)
+    dist, runs, leaves, cps = tapedfs.enumerate_all(fn, lambda i, log, prefix: menu, outcome)
     st.traces += runs
     st.transitions += cps
     st.states += leaves - 1
@@ -169,6 +169,107 @@ def check_dist(case, st):
         a = int(np.abs(got - ref).argmax())
         st.violation("distribution|%s|%s|%s" % ("quadratic-kernel" if deg2 else "polynomial-kernel", "in-order" if case["in_order"] else "random-order", kind),
                      case, "C12 %s %s(%s) from %r, schedule %r, in_order=%s: P(final = %r) = %.9f by enumerating all %d tapes, reference Metropolis chain gives %.9f (max abs error %.3g)"
+                     % (case["model"], f.__name__, short(dict(DL), 120), init, Ts, case["in_order"], rp.assignment(a, labels, spin), got[a], leaves, ref[a], err))
+
+
+def simulate(E, N, start, Ts, in_order, tape):
+    """Reference chain driven by a tape under the textbook draw discipline (site draw in random order; one word per
+    decision with dE > 0 and T > 0).  Returns ("site", N) / ("word", p) if the tape runs out, else ("done", final)."""
+    a, pos = start, 0
+    for T in Ts:
+        for j in range(N):
+            if in_order:
+                i = j
+            else:
+                if pos >= len(tape):
+                    return ("site", N)
+                i = tape[pos] % N
+                pos += 1
+            dE = E[a ^ (1 << i)] - E[a]
+            if dE <= 0:
+                a ^= 1 << i
+            elif T > 0:
+                p = math.exp(-dE / T)
+                if pos >= len(tape):
+                    return ("word", p)
+                w = tape[pos]
+                pos += 1
+                if w / 4294967296.0 < p:
+                    a ^= 1 << i
+    return ("done", a)
+
+
+def local_cases(tier):
+    """Deeper schedules, enumerated with a LOCAL menu (cut only at the threshold the reference predicts for the current
+    decision).  Sound only if the implementation follows the textbook draw discipline, which is verified on every tape:
+    a request the reference does not predict makes the configuration 'discipline-deviation' (counted, not a violation --
+    part 1 above makes no such assumption)."""
+    for nm, kind, cont, D, deg2 in MODELS:
+        N = 1 + max(i for k in D for i in k)
+        for in_order in (True, False):
+            maxsteps = (9 if in_order else 6) if tier != "quick" else (6 if in_order else 4)
+            scheds = []
+            for Ts in ([1, 2, 0.5], [2, 1, 1], [0.5] * 3, [1, 0], [3, 0.25], [0.5, 2], [1] * 4, [2, 1, 0.5, 0.25]):
+                if len(Ts) * N <= maxsteps:
+                    scheds.append(Ts)
+            for Ts in scheds:
+                for start in range(1 << N):
+                    yield {"part": "distlocal", "model": nm, "in_order": in_order, "Ts": Ts, "start": start}
+
+
+def check_distlocal(case, st):
+    kind, cont, M, DL, deg2 = build_model(case["model"])
+    spin = kind == "spin"
+    labels = visiting_labels(kind, cont, M, deg2)
+    N = len(labels)
+    E = rp.tt(DL, labels, spin)
+    Ts = [float(t) for t in case["Ts"]]
+    start = case["start"]
+    init = rp.assignment(start, labels, spin)
+    f = anneal_fn(kind, deg2)
+    idx = {l: j for j, l in enumerate(labels)}
+    deviation = [None]
+
+    def fn():
+        import warnings
+        with warnings.catch_warnings():
+            warnings.simplefilter("ignore")
+            return f(M, num_anneals=1, initial_state=init, schedule=Ts, in_order=case["in_order"], seed=0)
+
+    def outcome(res):
+        a = 0
+        for l, v in res[0].state.items():
+            bit = (1 - v) // 2 if spin else v
+            a |= int(bit) << idx[l]
+        return a
+
+    def word_menu(i, log, prefix):
+        r = simulate(E, N, start, Ts, case["in_order"], prefix)
+        if r[0] != "word":
+            deviation[0] = "implementation asks for a random word at position %d where the reference expects %r" % (i, r)
+            return tapedfs.cuts_to_menu([0.5])
+        return tapedfs.cuts_to_menu([r[1]])
+
+    dist, runs, leaves, cps = tapedfs.enumerate_all(fn, word_menu, outcome, max_runs=3_000_000)
+    st.traces += runs
+    st.transitions += cps
+    st.states += leaves - 1
+    st.extra["tapes_executed"] = st.extra.get("tapes_executed", 0) + runs
+    if deviation[0]:
+        st.skipped["distlocal: draw discipline differs from the textbook one (%s)" % deviation[0][:60]] += 1
+        return
+    ref = mp.final_distribution(E, N, start, Ts, case["in_order"])
+    got = np.zeros(1 << N)
+    for a, p in dist.items():
+        got[a] = p
+    if leaves > 1:
+        st.nontrivial += 1
+    st.outcomes["local: %d distinct final states" % int((got > 0).sum())] += 1
+    err = float(np.abs(got - ref).max())
+    if err > TOL:
+        a = int(np.abs(got - ref).argmax())
+        st.violation("distribution-local|%s|%s|%s" % ("quadratic-kernel" if deg2 else "polynomial-kernel", "in-order" if case["in_order"] else "random-order", kind),
+                     case, "C12 %s %s(%s) from %r, schedule %r, in_order=%s: P(final = %r) = %.9f by enumerating all %d tapes (local menus), reference chain gives %.9f (max abs error %.3g)"
                      % (case["model"], f.__name__, short(dict(DL), 120), init, Ts, case["in_order"], rp.assignment(a, labels, spin), got[a], leaves, ref[a], err))
 
 
@@ -368,6 +469,8 @@ def check(case, st):
     p = case["part"]
     if p == "dist":
         check_dist(case, st)
+    elif p == "distlocal":
+        check_distlocal(case, st)
     elif p == "zero":
         check_zero(case, st)
     elif p == "zero-random":
@@ -379,6 +482,7 @@ def check(case, st):
 def gen_cases(tier):
     def it():
         yield from dist_cases(tier)
+        yield from local_cases(tier)
         yield from zero_cases(tier)
         yield {"part": "repro", "which": "plain"}
         for nm in ("chain3", "cubic3f", "qubo3"):
@@ -402,7 +506,7 @@ def run(ctx):
 def replay(case):
     tp.lib()
     st = Stats()
-    base = {k: v for k, v in case.items() if k not in ("start", "Ts", "order", "seed", "in_order") or case["part"] == "dist"}
+    base = {k: v for k, v in case.items() if k not in ("start", "Ts", "order", "seed", "in_order") or case["part"] in ("dist", "distlocal")}
     if case["part"] == "repro":
         base = {k: case[k] for k in ("part", "which", "model") if k in case}
     check(base, st)
